@@ -1692,6 +1692,13 @@ static size_t ZSTD_maxNbSeq(size_t blockSize, unsigned minMatch, int useSequence
     return blockSize / divider;
 }
 
+static ldmParams_t ZSTD_estimate_adjustLdmParams(const ldmParams_t* ldmParams, const ZSTD_compressionParameters* cParams)
+{
+    ldmParams_t adjusted = *ldmParams;
+    if (adjusted.enableLdm == ZSTD_ps_enable) ZSTD_ldm_adjustParameters(&adjusted, cParams);
+    return adjusted;
+}
+
 static size_t ZSTD_estimateCCtxSize_usingCCtxParams_internal(
         const ZSTD_compressionParameters* cParams,
         const ldmParams_t* ldmParams,
@@ -1713,9 +1720,12 @@ static size_t ZSTD_estimateCCtxSize_usingCCtxParams_internal(
     size_t const blockStateSpace = 2 * ZSTD_cwksp_alloc_size(sizeof(ZSTD_compressedBlockState_t));
     size_t const matchStateSize = ZSTD_sizeof_matchState(cParams, useRowMatchFinder, /* enableDedicatedDictSearch */ 0, /* forCCtx */ 1);
 
-    size_t const ldmSpace = ZSTD_ldm_getTableSize(*ldmParams);
-    size_t const maxNbLdmSeq = ZSTD_ldm_getMaxNbSeq(*ldmParams, blockSize);
-    size_t const ldmSeqSpace = ldmParams->enableLdm == ZSTD_ps_enable ?
+    /* The public estimation functions provide the requested (possibly all-zero) LDM parameters :
+     * resolve them as ZSTD_resetCCtx_internal() does (idempotent on already adjusted parameters) */
+    ldmParams_t const adjustedLdmParams = ZSTD_estimate_adjustLdmParams(ldmParams, cParams);
+    size_t const ldmSpace = ZSTD_ldm_getTableSize(adjustedLdmParams);
+    size_t const maxNbLdmSeq = ZSTD_ldm_getMaxNbSeq(adjustedLdmParams, blockSize);
+    size_t const ldmSeqSpace = adjustedLdmParams.enableLdm == ZSTD_ps_enable ?
         ZSTD_cwksp_aligned64_alloc_size(maxNbLdmSeq * sizeof(rawSeq)) : 0;
 
 
